@@ -236,6 +236,30 @@ def check_c06(tier, replay):
                               SESS_ASSUME, mc_cfgs="frame")
 
 
+def c05_stage(v, scr, th):
+    """The raw core and the bare FEC decoder under forged input: (a) the boundary scripts of checks_core (forged fragment trains
+    read with the PeekSize idiom, fragment-count boundaries) judged by C05_NoPanic and the C04 bounds; (b) forged FEC sequence
+    ids from the boundary regions of the id space fed to the real decoder, judged by C05_NoPanic / C05_DecoderBounded."""
+    import checks_fec as cf
+    ind, outd = scr.sub("c05-in"), scr.sub("c05-out")
+    v.notes["boundary_scripts"] = cc.boundary_scripts(os.path.join(ind, "core_scripts.ndjson"))
+    cc.go_core(scr, "TestCoreScripts$", dict(VERIF_IN=ind, VERIF_OUT=outd))
+    cc.summarize(v, outd, ["core_scripts"])
+    cc.validate_traces(v, scr, "C05", os.path.join(outd, "core_scripts.ndjson"), "core_scripts",
+                       ["C05_NoPanic", "C04_RcvQueueBounded", "C04_RcvBufBounded"], None, conformance=True)
+    rc, out = vlib.go_test("./fecdrv", "TestFecForged$", dict(VERIF_OUT=outd, FEC_RUNS=96 if th else 16), timeout=1200)
+    if rc != 0:
+        raise MachineryError("fec driver failed:\n" + out[-3000:])
+    cf.summarize(v, outd, ["fec_forged"])
+    old = cc.obs_cfg
+    cc.obs_cfg = cf.obs_cfg_fec
+    try:
+        cc.validate_traces(v, scr, "C05", os.path.join(outd, "fec_forged.ndjson"), "fec_forged", ["C05_NoPanic", "C05_DecoderBounded"], None,
+                           conformance=False, obs_module="FecObs")
+    finally:
+        cc.obs_cfg = old
+
+
 def check_c05(tier, replay):
     inv = ["C05_Bounds", "C15_PoolOwnership"]
     return generic_sess_check("C05", tier, replay, "exploration", inv, "TestSessGarbage$", ("sess_garbage",),
@@ -244,8 +268,12 @@ def check_c05(tier, replay):
                               "1500) and structure-aware mutations of captured datagrams (truncation, extension, bit flips, 32/16-bit field "
                               "splicing with boundary values) arrive from the peer's address and from unknown addresses, for every cipher/FEC "
                               "class (with no cipher they reach the FEC and KCP parsers); a panic anywhere in the library kills the run and is "
-                              "the violation; queue lengths, shard-set count and pool balance are sampled. The raw core's Input and the FEC "
-                              "decoder are fed forged/garbage input by the core and FEC checks (C04/C07 monitors C05_NoPanic, "
-                              "C05_DecoderBounded). Non-trivial = every run (each injects 200-2000 datagrams)",
+                              "the violation; queue lengths, shard-set count and pool balance are sampled. Raw core: boundary scripts (forged fragment "
+                              "trains whose frg bytes are inconsistent, read with a buffer of exactly PeekSize() bytes; messages of 254..257 "
+                              "fragments) validated against KcpCore.tla and judged by C05_NoPanic / the C04 bounds; bare FEC decoder: genuine "
+                              "traffic mixed with datagrams whose sequence id is altered into the boundary regions of the id space (around 2^31 "
+                              "from the newest id, around the wrap value, top of the word, far behind, random; type/position kept consistent; "
+                              "thousands of distinct shard ids), judged by C05_DecoderBounded. Further forged input reaches the core and the "
+                              "decoder in the C04/C07 checks. Non-trivial = every run (each injects 200-2000 datagrams)",
                               SESS_ASSUME + ["heap growth is bounded through the library's own accounting (queue lengths, shard sets, pool balance)"],
-                              mc_cfgs=(("FrameMC", "Frame_mc_nil_0_0.cfg"),))
+                              mc_cfgs=(("FrameMC", "Frame_mc_nil_0_0.cfg"),), extra_stage=c05_stage)
